@@ -338,6 +338,9 @@ def find_converted_db(converted_gtfs, gtf_filename, complete_genedb):
 
 
 def compare_stored_gtf(converted_gtfs, gtf_filename, genedb_filename):
+    # the entry must belong to this very database: another database may carry the same time stamp
+    if converted_gtfs.get(gtf_filename, {}).get('genedb') != genedb_filename:
+        return False
     gtf_mtime = converted_gtfs.get(gtf_filename, {}).get('gtf_mtime')
     db_mtime = converted_gtfs.get(gtf_filename, {}).get('db_mtime')
     return (os.path.exists(gtf_filename) and os.path.getmtime(gtf_filename) == gtf_mtime and
